@@ -102,7 +102,10 @@ def parseBytes (s : List Nat) : Option Nat :=
   match scanDecimal num with
   | some (v, []) =>
     match bytesUnit extra with
-    | some m => some (v * (m : Rat)).floor.toNat
+    | some m =>
+      -- humanize.ParseBytes fails ("too large") from 2^64 on
+      let n := (v * (m : Rat)).floor.toNat
+      if n ≥ 18446744073709551616 then none else some n
     | none => none
   | _ => none
 
